@@ -238,6 +238,10 @@ class Exec:
             except PathEnd:
                 continue
         self.ctx.paths += npaths
+        for (cname, cloc), (entered, survived) in self.ctx.__dict__.get("call_survival", {}).items():
+            if entered and not survived:
+                raise Unsupported(f"no path survives the assumed postcondition of {cname} at {cloc}: it is inconsistent with the "
+                                  f"caller's state (missing modifies clause?)")
         return outcomes
 
     def assume_requires(self, contract, env):
@@ -1365,12 +1369,16 @@ class Exec:
             if not isinstance(k, str):
                 raise Unsupported("mapping lookup with non-literal key")
             p = base.present(k)
-            if not self.decide(p):
+            if getattr(self, "_spec_depth", 0) > 0:
+                # contract clauses are total: the value under an absent key is an arbitrary object (clauses guard it with has())
+                if k not in base.entries:
+                    return Opaque(name=f"{base.name}.{k}.absent")
+            elif not self.decide(p):
                 raise PathRaise("KeyError", n)
             v = base.entries[k][1]
             if v is V.UNSET:
                 v = self.fresh_entry(base, k)
-                base.entries[k][1] = v
+                base.materialise(k, v)
             return v
         if isinstance(base, ListMap):
             (k,) = idx
@@ -1771,7 +1779,9 @@ class Exec:
         return self.call(fn, args, kwargs, n, env, fr)
 
     def call(self, fn, args, kwargs, n, env, fr):
-        if isinstance(fn, Builtin) and not (self.abstract and any(isinstance(a, Opaque) for a in list(args) + list(kwargs.values()))):
+        _keep = ("DataArray", "xarray.DataArray", "xr.DataArray", "dict", "isinstance", "len", "copy.deepcopy")
+        if isinstance(fn, Builtin) and not (self.abstract and fn.name not in _keep
+                                            and any(isinstance(a, Opaque) for a in list(args) + list(kwargs.values()))):
             if fn.fn is not None:
                 return fn.fn(self, args, kwargs, n)
             h = self.models.get("builtins." + fn.name)
@@ -1782,7 +1792,7 @@ class Exec:
             return self.call_function(fn.info, args, kwargs, n, env, fr)
         if isinstance(fn, BoundMethod):
             return self.call_method(fn.obj, fn.name, args, kwargs, n, env, fr)
-        if isinstance(fn, (Builtin, ModRef)) and self.abstract and fn.name not in ("DataArray", "xarray.DataArray") \
+        if isinstance(fn, (Builtin, ModRef)) and self.abstract and fn.name not in _keep \
                 and any(isinstance(a, Opaque) for a in list(args) + list(kwargs.values())):
             cname = _canon_mod(fn.name)
             if cname in self._MUTATING_LIB:
@@ -1791,8 +1801,8 @@ class Exec:
             if h is not None:
                 try:
                     return h(self, args, kwargs, n)
-                except Unsupported:
-                    pass
+                except (Unsupported, TypeError, AttributeError):
+                    pass              # the model handles symbolic arrays / scalars only: fall back to the abstraction
             return self.abs_apply("lib:" + cname, args, kwargs)
         if isinstance(fn, ModRef):
             h = self.models.get(_canon_mod(fn.name))
@@ -1875,11 +1885,18 @@ class Exec:
     def call_function(self, info, args, kwargs, n, env, fr):
         q = info.qualname
         c = self.ctx.registry.get(q)
+        cv = (self.ctx.options.get("callee_variants") or {}).get(q)
+        if cv is not None:
+            c = self.ctx.registry.get(f"{q}@{cv}")
+            if c is None:
+                raise Unsupported(f"no contract variant {q}@{cv}")
         if q in (self.ctx.options.get("summaries") or ()):
             bound = self.bind_args(info, args, kwargs, env, fr)
             from .objmodels import trusted as _trusted
             _trusted(self, f"summary: {q} is a deterministic, side-effect-free function of its arguments")
-            return self.abs_apply("fn:" + q, [bound[a] for a, _ in info.params()[0] if a in bound])
+            ps_, va_, kw_ = info.params()
+            return self.abs_apply("fn:" + q, [bound[a] for a, _ in ps_ if a in bound]
+                                  + ([bound[va_]] if va_ else []) + ([bound[kw_]] if kw_ else []))
         bound = self.bind_args(info, args, kwargs, env, fr)
         if c is not None and not c.inline and not (self.frames and self.frames[0].info is info and len(self.frames) == 0):
             return self.call_contract(info, c, bound, n, fr)
@@ -1942,6 +1959,37 @@ class Exec:
         for m in c.modifies:
             if m in bound:
                 bound[m] = self.havoc_value(bound[m], m, True)
+            elif "[" in m:
+                # "param.attr['key']": one entry of a symbolic mapping (e.g. a variable of the grid's dataset) is replaced
+                mnode = ast.parse(m, mode="eval").body
+                field = None
+                if isinstance(mnode, ast.Attribute) and isinstance(mnode.value, ast.Subscript):
+                    field, mnode = mnode.attr, mnode.value          # "param['key'].data": one field of the stored object is replaced
+                if not (isinstance(mnode, ast.Subscript) and isinstance(mnode.slice, ast.Constant) and isinstance(mnode.slice.value, str)):
+                    raise Unsupported(f"modifies clause {m}")
+                self._spec_depth = getattr(self, "_spec_depth", 0) + 1
+                try:
+                    d = self.eval(mnode.value, dict(cenv), _SpecFrame(self))
+                finally:
+                    self._spec_depth -= 1
+                if isinstance(d, Obj) and d.cls == "Dataset":
+                    d = d.fields["vars"]
+                if not isinstance(d, SymDict):
+                    raise Unsupported(f"modifies clause {m}: not a symbolic mapping")
+                key_ = mnode.slice.value
+                if field is None:
+                    d.entries[key_] = [z3.Bool(fresh_name(f"{d.name}.has.{key_}")), V.UNSET]
+                else:
+                    d.present(key_)
+                    e_ = d.entries.get(key_)
+                    if e_ is not None and e_[0] is not False:
+                        if e_[1] is V.UNSET:
+                            d.materialise(key_, self.fresh_entry(d, key_))
+                        tgt = d.entries[key_][1]
+                        if not (isinstance(tgt, Obj) and field in tgt.fields):
+                            raise Unsupported(f"modifies clause {m}: no such field")
+                        tgt.fields[field] = Opaque(name=f"{d.name}.{key_}.{field}")
+        was_feasible = self.feasible() if self.emitting else True
         result = self.make_result(c, cenv, info)
         cenv2 = dict(bound)
         for k_, v_ in csizes.items():
@@ -1953,6 +2001,14 @@ class Exec:
             for k_, v_ in csizes.items():
                 self.st.ghostvars.setdefault(k_, v_)   # the callee's size witnesses (e.g. number of partitions) stay nameable
             cenv2.update(self.st.ghostvars)
+        # ghost names the callee's own proof introduces with `let` are existential witnesses for the caller: fresh unknown values
+        for gls in (c.asserts or {}).values():
+            for g_ in gls:
+                if g_.startswith("let "):
+                    gname = g_[4:].partition("=")[0].strip()
+                    if gname not in cenv2:
+                        from .objmodels import opt_opaque
+                        cenv2[gname] = opt_opaque("witness_" + gname)
         saved_old = self.st.old
         self.st.old = old
         try:
@@ -1960,6 +2016,15 @@ class Exec:
                 self.assume(self.eval_clause(cl, cenv2, result))
         finally:
             self.st.old = saved_old
+        if was_feasible and self.emitting:
+            # vacuity guard: a call site through which NO path survives the callee's assumed postcondition means the postcondition
+            # contradicts what the caller knows (typically a missing modifies clause); decided when all paths have been explored
+            site = self.ctx.__dict__.setdefault("call_survival", {}).setdefault((name, loc_of(fr, n)), [0, 0])
+            site[0] += 1
+            if self.feasible():
+                site[1] += 1
+            else:
+                raise PathEnd()
         return result
 
     def make_result(self, c, cenv, info):
